@@ -202,12 +202,39 @@ NextEXT == \E hel \in Hels, tag \in {3, 80} :
              \/ /\ c' = <<"ip6rt", hel, tag>> /\ LET rt == RtEl("r", 58, hel, tag) IN Emit("EXT", Ip6With("i", <<>>, <<rt>>, 43, 58, tag, 5), <<rt>>)
              \/ /\ c' = <<"ip6both", hel, tag>>
                 /\ LET hb == HbhBig("h", 43, hel, tag)  rt == RtEl("r", 6, 255 - hel, tag) IN Emit("EXT", Ip6With("i", <<hb>>, <<rt>>, 0, 6, tag, 5), <<hb, rt>>)
-\* base frames for the totality check (C08): for every decoder entry point a few well-formed inputs written by EncPkt
 DhcpTree(tag, hlen, opts) ==
   [T |-> "DHCP", Operation |-> <<1 + (tag % 2)>>, HardwareType |-> <<1>>, HardwareLen |-> <<hlen>>, HardwareOpts |-> <<0>>, Xid |-> V(tag, 4), Secs |-> V(tag + 1, 2),
    Flags |-> <<128, 0>>, ClientIP |-> V(tag + 2, 4), YourIP |-> V(tag + 3, 4), ServerIP |-> V(tag + 4, 4), GatewayIP |-> V(tag + 5, 4),
    ClientHWAddr |-> V(tag + 6, hlen), ServerName |-> V(tag + 7, 64), File |-> V(tag + 8, 128), Options |-> opts]
-DOpt(tag, data) == [Tag |-> <<tag>>, Data |-> data]
+DOpt(tag, data) == [T |-> "DHCPOption", Tag |-> <<tag>>, Data |-> data]
+\* DHCP and LLDP TLVs (Read / Write style codecs), built through the API
+DhcpEl(n, tag, hlen, opts) ==
+  LET t == DhcpTree(tag, hlen, opts)
+      os == [i \in DOMAIN opts |-> El(Nm(n, i), opts[i], <<New(Nm(n, i), "DHCPNewOption", <<opts[i].Tag, opts[i].Data>>)>>)] IN
+  El(n, t, OpsOf(os) \o <<New(n, "NewDHCP", <<t.Xid, t.Operation, <<1>>>>)>>
+       \o SetAll(n, t, <<"HardwareLen", "HardwareOpts", "Secs", "Flags", "ClientIP", "YourIP", "ServerIP", "GatewayIP", "ClientHWAddr", "ServerName", "File">>)
+       \o <<Set(n, "Options", RefsOf(os))>>)
+LldpIdEl(n, kind, type, subtype, data) ==
+  LET t == [T |-> kind, Type |-> <<type>>, Length |-> BE16(1 + Len(data)), Subtype |-> <<subtype>>, Data |-> data] IN
+  El(n, t, <<NewT(n, kind)>> \o SetAll(n, t, <<"Type", "Length", "Subtype", "Data">>))
+LldpTtlEl(n, secs) ==
+  LET t == [T |-> "TTLTLV", Type |-> <<3>>, Length |-> <<0, 2>>, Seconds |-> secs] IN
+  El(n, t, <<NewT(n, "TTLTLV")>> \o SetAll(n, t, <<"Type", "Length", "Seconds">>))
+NextDL == \/ \E hlen \in {0, 1, 6, 16}, k \in 0..4, tag \in {5, 90} :
+               LET opts == CASE k = 0 -> <<>>
+                             [] k = 1 -> <<DOpt(53, <<1>>)>>
+                             [] k = 2 -> <<DOpt(53, <<5>>), DOpt(51, V(tag, 4)), DOpt(61, V(tag + 1, 7))>>
+                             [] k = 3 -> <<DOpt(0, <<>>), DOpt(0, <<>>), DOpt(12, V(tag, 40))>>       \* pad options (the end option is written by the encoder)
+                             [] k = 4 -> <<DOpt(60, <<>>), DOpt(55, V(tag, 253))>> IN
+               /\ c' = <<"dhcp", hlen, k, tag>>
+               /\ Emit("DL", DhcpEl("d", tag, hlen, opts), <<>>)
+          \/ \E dl \in {0, 1, 6, 255, 510}, kind \in {"ChassisTLV", "PortTLV"}, tag \in {5, 90} :
+               /\ c' = <<kind, dl, tag>>
+               /\ Emit("DL", LldpIdEl("t", kind, IF kind = "ChassisTLV" THEN 1 ELSE 2, 1 + (tag % 7), V(tag, dl)), <<>>)
+          \/ \E secs \in {<<0, 0>>, <<0, 120>>, <<255, 255>>} :
+               /\ c' = <<"ttl", secs>>
+               /\ Emit("DL", LldpTtlEl("t", secs), <<>>)
+\* base frames for the totality check (C08): for every decoder entry point a few well-formed inputs written by EncPkt
 BaseTrees ==
   { EthEl("e", 0, 0, 0, <<8, 0>>, Ip4El("p", 4, 5, 0, 0, 0, 0, 17, 1, 10), 1).tree,
     EthEl("e", 3, 0, 77, <<8, 0>>, Ip4El("p", 4, 7, 1, 1, 2, 9, 1, 2, 6), 2).tree,
@@ -240,6 +267,6 @@ NextBASE == \/ \E t \in BaseTrees :
                  /\ PrintT(ToJson([entry |-> "DHCPOptions", kind |-> "DHCPOptions", frame |-> Flat([i \in DOMAIN ol |-> EncDhcpOpt(ol[i])]) \o <<255>>]))
 Init == c = <<>>
 Next == c = <<>> /\ CASE Family = "VLAN" -> NextVLAN [] Family = "ETH" -> NextETH [] Family = "IP4" -> NextIP4 [] Family = "IP6" -> NextIP6
-                      [] Family = "FRAG" -> NextFRAG [] Family = "TCP" -> NextTCP [] Family = "L4" -> NextL4 [] Family = "IGMP" -> NextIGMP [] Family = "BASE" -> NextBASE [] Family = "EXT" -> NextEXT
+                      [] Family = "FRAG" -> NextFRAG [] Family = "TCP" -> NextTCP [] Family = "L4" -> NextL4 [] Family = "IGMP" -> NextIGMP [] Family = "BASE" -> NextBASE [] Family = "EXT" -> NextEXT [] Family = "DL" -> NextDL
 Spec == Init /\ [][Next]_c
 =============================================================================
